@@ -114,9 +114,11 @@ Record rseg := mkR { rnum : list Z; rden : list Z; rlo : option limit; rhi : opt
 Fixpoint horner (cs : list Z) (x : Z) : Z :=
   match cs with [] => 0 | c :: r => c + x * horner r x end.
 Definition rseg_applies (s : rseg) (x : Z) : bool := ol_lower (rlo s) x && ol_upper (rhi s) x.
-Definition rseg_convert (s : rseg) (x : Z) : cres Z :=
+(* a pole of the rational function: since the fix commit the ZeroDivisionError is reported as the
+   decode / encode error [e] of the calling direction *)
+Definition rseg_convert (e : cerr) (s : rseg) (x : Z) : cres Z :=
   let d := horner (rden s) x in
-  if d =? 0 then CErr CForeign (* ZeroDivisionError *) else COk (rdiv (horner (rnum s) x) d).
+  if d =? 0 then CErr e else COk (rdiv (horner (rnum s) x) d).
 
 (* ---------- compu methods ---------- *)
 Inductive compu :=
@@ -196,11 +198,11 @@ Definition i2p (c : compu) (v : cval) : cres cval :=
     | None => CErr CDecode
     end
   | MRatFunc s _, CInt x =>
-    if rseg_applies s x then match rseg_convert s x with COk y => COk (CInt y) | CErr e => CErr e end
+    if rseg_applies s x then match rseg_convert CDecode s x with COk y => COk (CInt y) | CErr e => CErr e end
     else CErr CDecode
   | MScaleRatFunc segs _, CInt x =>
     match first_seg (fun s => rseg_applies s x) segs with
-    | Some s => match rseg_convert s x with COk y => COk (CInt y) | CErr e => CErr e end
+    | Some s => match rseg_convert CDecode s x with COk y => COk (CInt y) | CErr e => CErr e end
     | None => CErr CDecode
     end
   | _, _ => CErr COdx
@@ -244,12 +246,12 @@ Definition p2i (c : compu) (v : cval) : cres cval :=
     | None => CErr CEncode
     end
   | MRatFunc _ (Some s), CInt y =>
-    if rseg_applies s y then match rseg_convert s y with COk x => COk (CInt x) | CErr e => CErr e end
+    if rseg_applies s y then match rseg_convert CEncode s y with COk x => COk (CInt x) | CErr e => CErr e end
     else CErr CEncode
   | MRatFunc _ None, _ => CErr CEncode
   | MScaleRatFunc _ (Some segs), CInt y =>
     match first_seg (fun s => rseg_applies s y) segs with
-    | Some s => match rseg_convert s y with COk x => COk (CInt x) | CErr e => CErr e end
+    | Some s => match rseg_convert CEncode s y with COk x => COk (CInt x) | CErr e => CErr e end
     | None => CErr CEncode
     end
   | MScaleRatFunc _ None, _ => CErr CEncode
